@@ -469,6 +469,12 @@ def _rw_io_once(tl):
                 i = k + 1
                 cnt += 1
                 continue
+        if tl[i:i + 4] == ["Error", "::", "new", "("]:
+            j = _close(tl, i + 3)
+            out += ["error_any", "(", ")"]
+            i = j + 1
+            cnt += 1
+            continue
         if tl[i:i + 3] == ["ext", "::", "num_to_unicode"]:
             out.append("ext_num_to_unicode")
             i += 3
